@@ -546,7 +546,7 @@ func (w *vfWork) buffered() (int, uint64) {
 		r.mu.Lock()
 		ws := r.wStream
 		r.mu.Unlock()
-		if ws != nil {
+		if ws != nil && !vfStreamDetached(w.sim.getAssoc(r.wside), ws) {
 			st += ws.BufferedAmount()
 		}
 	}
